@@ -85,6 +85,9 @@ class Prop:
             alts = g["alts"] if not quick else [a for i, a in enumerate(g["alts"]) if a[0] != "move" or i % 4 == 0]
             for i in range(0, len(alts), CHUNK):
                 yield dict(kind="alts", univ=g["univ"], setup=g["setup"], alts=alts[i:i + CHUNK], label=g["label"])
+        for g in mut.gen_addtree(typed=(False,) if quick else (False, True)):
+            for i in range(0, len(g["alts"]), CHUNK):
+                yield dict(kind="alts", univ=g["univ"], setup=g["setup"], alts=g["alts"][i:i + CHUNK], label=g["label"])
         if not quick:
             for g in mut.gen_exhaustive(3, typed=(True,)):
                 for i in range(0, len(g["alts"]), CHUNK):
